@@ -97,7 +97,7 @@ type probe struct {
 	owner string             // google | gogo | googlev1 | own | none
 }
 
-func i32(v int32) *int32 { return &v }
+func i32(v int32) *int32   { return &v }
 func str(s string) *string { return &s }
 
 func probes() []probe {
@@ -129,7 +129,9 @@ func probes() []probe {
 		{"gogodesc.File", func() interface{} {
 			return &gogodesc.FileDescriptorProto{Name: str("a.proto"), Dependency: []string{"b", "c"}}
 		}, func() interface{} { return &gogodesc.FileDescriptorProto{} }, "gogo"},
-		{"LegacyV1", func() interface{} { return &LegacyV1{A: i32(-7), S: str("legacy"), R: []int64{1, -1, 1 << 40}, B: []byte{9}} }, func() interface{} { return &LegacyV1{} }, "googlev1"},
+		{"LegacyV1", func() interface{} {
+			return &LegacyV1{A: i32(-7), S: str("legacy"), R: []int64{1, -1, 1 << 40}, B: []byte{9}}
+		}, func() interface{} { return &LegacyV1{} }, "googlev1"},
 		{"LegacyPlain", func() interface{} { return &LegacyPlain{A: i32(5)} }, func() interface{} { return &LegacyPlain{} }, "googlev1"},
 		{"OwnCodec", func() interface{} { return &OwnCodec{b: []byte{8, 1}} }, func() interface{} { return &OwnCodec{} }, "own"},
 	}
